@@ -301,7 +301,11 @@ def r7(ctx):
     good = strip(ws.get("~MerkleTreeChangeset.length", ("x",))) == ("param", "length") and strip(ws.get("~MerkleTreeChangeset.ancestors", ("x",))) == ("param", "length") and strip(ws.get("~MerkleTreeChangeset.fork", ("x",))) == ("param", "fork") and term_is_lit(ws.get("~MerkleTreeChangeset.upgraded", ("x",)), 1)
     ctx.check(P, rule, "the rebuilt changeset carries the logged length and fork and is an upgrade", good, "length = ancestors = length param, fork = fork param, upgraded = true", "truncate sets %s" % {k: term_str(v)[:40] for k, v in ws.items()})
     bl = ws.get("~MerkleTreeChangeset.byte_length")
-    ctx.check(P, rule, "byte length is the sum of the rebuilt roots' sizes", bl is not None and "fold" in term_str(bl) and "roots" in term_str(bl), "roots.iter().fold(0, acc + node.length)", "byte_length is %s" % (term_str(bl)[:80] if bl else None))
+    # however the sum is written (fold, map+sum, a for loop): an accumulator that starts at 0 and
+    # adds .length of each element of the changeset's roots
+    sm = loop_sum(bl) if bl is not None else None
+    good = sm is not None and term_is_lit(sm[0], 0) and strip(sm[1])[0] == "field" and strip(sm[1])[2] == "length" and "next" in term_str(sm[1]) and "roots" in term_str(sm[1])
+    ctx.check(P, rule, "byte length is the sum of the rebuilt roots' sizes", good, "0 + sum of node.length over changeset.roots", "byte_length is %s" % (term_str(bl)[:160] if bl else None))
 
 
 RULES = [r1, r2, r3, r4, r5, r6, r7]
